@@ -103,14 +103,18 @@ static std::string gen_tunnel(uint64_t seed, uint64_t idx, bool thorough) {
     bool tscf = mode & 1, udp = mode & 2, fd = mode & 4;
     unsigned stratum = (idx / 8) % 4;
     bool faults = (idx / 32) % 2;
-    int maxcount = fd ? 18 : 61;
+    size_t hdrs = (udp ? 4 : 0) + (tscf ? wire::TSCF_HDR : wire::NTSCF_HDR);
+    int maxcount = (int)((1500 - hdrs) / (fd ? 80 : 24));  // what the talker's 1500-byte buffer holds for maximum-size frames
     int count;
     switch (stratum) {
     case 0: count = 1; break;
     case 1: count = (int)r.range(2, 3); break;
     case 2: count = (int)r.range(4, std::min(12, maxcount)); break;
-    default: count = (int)r.range(1, maxcount); break;
+    default: count = r.chance(0.35) ? maxcount - (int)r.below(3) : (int)r.range(1, maxcount); break;
     }
+    // frames of one kind (the same message sent over and over): all maximum length, or all of one random length
+    int uniform_len = -1;
+    if (r.chance(0.2)) uniform_len = r.chance(0.6) ? (fd ? 64 : 8) : (int)r.below(fd ? 65 : 9);
     int nframes = (int)(r.chance(0.3) ? r.range(1, 6) : r.range(1, thorough ? 300 : 120));
     if (r.chance(0.6)) nframes = std::max(nframes, count * (int)r.range(1, 4));
     if (count <= 2 && r.chance(0.2)) nframes = (int)r.range(258, 300) * count;  // 8-bit sequence counters wrap inside the run
@@ -119,8 +123,15 @@ static std::string gen_tunnel(uint64_t seed, uint64_t idx, bool thorough) {
     size_t qcap = faults ? (size_t[]){2, 4, 8, 64, 4096}[r.below(5)] : 4096;
     uint64_t t = 1000000, scale = (uint64_t[]){20000, 200000, 2000000}[r.below(3)];
     std::vector<std::string> frames;
+    if (uniform_len >= 0 && count > 8) nframes = std::max(nframes, count * (int)r.range(1, 3));
     for (int i = 0; i < nframes; i++) {
-        frames.push_back(can_line(t, gen_can_frame(r, fd)));
+        CanRec c = gen_can_frame(r, fd);
+        if (uniform_len >= 0) {
+            c.len = (uint8_t)uniform_len;
+            auto d = rnd_bytes(r, c.len, 1);
+            memcpy(c.data, d.data(), c.len);
+        }
+        frames.push_back(can_line(t, c));
         t += gap(r, scale);
     }
     uint64_t maxdelay = 5000000;
@@ -219,6 +230,7 @@ static Built build_can(Rng &r, bool udp, bool tscf, bool fd, uint64_t now_ns) {
 static Built build_hello(Rng &r, bool udp, bool tscf, uint64_t now_ns) {
     Built b;
     size_t n = r.chance(0.5) ? r.range(0, 40) : r.range(0, 1480);
+    if (r.chance(0.15)) n = (size_t[]){84, 88, 91, 92, 93, 96, 1500 - 24 - 8, 1500 - 12 - 8, 1500 - 28 - 8, 1500 - 16 - 8}[r.below(10)];  // around MAX_MSG_SIZE and the full buffer
     std::vector<uint8_t> pl = rnd_bytes(r, n, r.chance(0.6) ? (r.coin() ? 1 : 3) : -1);
     if (r.chance(0.5) && !pl.empty()) pl.back() = 0;  // half of them NUL-terminated
     wire::Bytes acf = wire::acf_gpc(r.next() & 0xffffffffffffULL, pl);
@@ -239,9 +251,16 @@ static Built build_vss(Rng &r, bool udp, bool tscf, uint64_t now_ns) {
     unsigned dt = r.chance(0.9) ? dts[r.below(24)] : (unsigned)r.below(256);
     if (r.chance(0.3)) dt = 9;  // the one the listener prints
     std::vector<uint8_t> path, data;
+    bool fill = r.chance(0.2);  // message that ends exactly at (or within a few bytes of) the end of a 1500-byte datagram
     if (am == 1) { auto x = rnd_bytes(r, 4); path = x; }
     else {
         size_t pl = r.chance(0.6) ? r.range(0, 40) : r.range(0, 1400);
+        if (fill) {
+            size_t hdrs = (udp ? 4 : 0) + (tscf ? wire::TSCF_HDR : wire::NTSCF_HDR) + wire::ACF_VSS_HDR + 2;
+            size_t val = (dt == 0 || dt == 1 || dt == 8) ? 1 : (dt == 2 || dt == 3) ? 2 : (dt == 4 || dt == 5 || dt == 9) ? 4 : (dt == 6 || dt == 7 || dt == 0xA) ? 8 : 2;
+            size_t target = (size_t[]){1500, 1500, 1499, 1498, 1497, 1496, 1502, 1504}[r.below(8)];
+            pl = target > hdrs + val ? target - hdrs - val + (r.chance(0.3) ? r.below(5) : 0) : pl;
+        }
         be16(path, (uint16_t)pl);
         auto x = rnd_bytes(r, pl, 3);
         path.insert(path.end(), x.begin(), x.end());
@@ -284,9 +303,10 @@ static Built build_cvf(Rng &r, uint64_t now_ns) {
     size_t n = r.chance(0.5) ? r.range(1, 64) : r.range(1, 1400);
     if (r.chance(0.2)) n = (size_t[]){1396, 1399, 1400, 1401, 1404, 1408, 1420, 1472}[r.below(8)];  // around DATA_LEN and the receive size
     uint32_t ts = (uint32_t)(now_ns + (r.chance(0.7) ? r.range(0, 50000000) : r.next()));
+    if (r.chance(0.12)) ts = (uint32_t)((now_ns / 1000000000ULL + r.range(1, 4)) * 1000000000ULL - (r.chance(0.7) ? 0 : r.range(1, 2)));  // presentation on a full second
     b.d = wire::cvf_h264((uint8_t)r.next(), kStreamId, ts, rnd_bytes(r, n));
     add_field(b, 0, 8); add_field(b, 8, 1); add_field(b, 9, 3); add_field(b, 15, 1); add_field(b, 16, 8); add_field(b, 32, 64);
-    add_field(b, 96, 32); add_field(b, 128, 8); add_field(b, 136, 8);
+    add_field(b, 96, 32); add_field(b, 128, 8); add_field(b, 136, 8); add_field(b, 31, 1); add_field(b, 12, 1); add_field(b, 178, 1); add_field(b, 179, 1);
     add_field(b, 160, 16, true); add_field(b, 160, 16, true); add_field(b, 160, 16, true); add_field(b, 160, 16, true);
     return b;
 }
@@ -294,10 +314,11 @@ static Built build_cvf(Rng &r, uint64_t now_ns) {
 static Built build_aaf(Rng &r, uint64_t now_ns, size_t payload) {
     Built b;
     uint32_t ts = (uint32_t)(now_ns + (r.chance(0.7) ? r.range(0, 50000000) : r.next()));
+    if (r.chance(0.12)) ts = (uint32_t)((now_ns / 1000000000ULL + r.range(1, 4)) * 1000000000ULL - (r.chance(0.7) ? 0 : r.range(1, 2)));  // presentation on a full second
     b.d = wire::aaf_pcm((uint8_t)r.next(), kStreamId, ts, 4, 5, 2, 16, rnd_bytes(r, payload));
     add_field(b, 0, 8); add_field(b, 8, 1); add_field(b, 9, 3); add_field(b, 15, 1); add_field(b, 16, 8); add_field(b, 32, 64); add_field(b, 96, 32);
     add_field(b, 128, 8); add_field(b, 136, 4); add_field(b, 142, 10); add_field(b, 152, 8); add_field(b, 160, 16, true); add_field(b, 179, 1);
-    add_field(b, 96, 32); add_field(b, 96, 32);
+    add_field(b, 96, 32); add_field(b, 96, 32); add_field(b, 31, 1); add_field(b, 12, 1); add_field(b, 180, 4);
     return b;
 }
 
@@ -321,6 +342,11 @@ static Built build_crf(Rng &r, uint64_t now_ns) {
 
 static uint64_t adversarial(Rng &r, const Field &f, size_t dgram_len) {
     uint64_t max = f.w >= 64 ? ~0ULL : ((1ULL << f.w) - 1);
+    if (f.is_len && r.chance(0.15)) {
+        // limits that appear as constants in the listeners (message size 100, NAL size 1400, receive sizes 1428/1500, 11-bit length)
+        static const uint64_t k[] = {23, 24, 25, 26, 27, 99, 100, 101, 1399, 1400, 1401, 1404, 1405, 1428, 1499, 1500, 1501, 0x7ff, 0x800, 0x801, 2048, 2050};
+        return k[r.below(22)] & max;
+    }
     if (f.is_len) {
         switch (r.below(12)) {
         case 0: return 0;
